@@ -127,7 +127,7 @@ impl<V> Prio3Visitor for Second<'_, V> {
                 "verification completed although the aggregators run a different instance than the client",
                 json!({"config": self.desc, "aggregator_cfg": format!("{cfg2:?}"), "mismatch": self.label}));
         } else if accepted > 0 {
-            ctx.count("soundness_flukes");
+            ctx.sporadic(64, format!("{}|accepted-under-mismatch|{}", self.kname, self.label), json!({"config": self.desc, "aggregator_cfg": format!("{cfg2:?}"), "mismatch": self.label, "accepted_of_4": accepted}));
         }
     }
 }
@@ -280,7 +280,7 @@ impl Prio3Visitor for V18<'_> {
                             json!({"config": desc, "mismatch": label, "measurement": p.meas_json(&m), "ctx": hex_trunc(&vctx, 48), "agg_ctxs": ctxs.iter().map(|c| hex_trunc(c, 48)).collect::<Vec<_>>(),
                                    "nonce": hex(&nonce), "agg_nonces": nonces.iter().map(|x| hex(x)).collect::<Vec<_>>(), "ids": ids}));
                     } else {
-                        ctx.count("soundness_flukes");
+                        ctx.sporadic(64, format!("{k}|accepted-under-mismatch|{label}"), json!({"config": desc, "mismatch": label, "accepted_of_4": acc, "nonce": hex(&nonce), "ctx": hex_trunc(&vctx, 48)}));
                     }
                 }
                 other => {
@@ -419,7 +419,7 @@ fn poplar(ctx: &mut Ctx) {
                         ctx.violation(format!("Poplar1|accepted-under-mismatch|{mis}"), "Poplar1 verification completed under a binding mismatch (4 independent keys)",
                             json!({"bits": bits, "level": level, "mismatch": mis, "nonce": hex(&nonce), "ctx": hex_trunc(&vctx, 48), "prefixes": prefixes.len()}));
                     } else {
-                        ctx.count("soundness_flukes");
+                        ctx.sporadic(64, format!("Poplar1|accepted-under-mismatch|{mis}"), json!({"bits": bits, "level": level, "mismatch": mis, "accepted_of_4": acc, "nonce": hex(&nonce)}));
                     }
                 }
                 other => {
